@@ -135,8 +135,8 @@ def run(chk):
     nontrivial = 0
     for c, o in zip(cases, outs):
         if not o.get("ok"):
-            if "pipes" in (o.get("msg") or "") or o.get("exc") == "ValueError":
-                continue           # geometry that does not fit: outside the property's "valid borehole"
+            if o.get("exc") == "ValueError" and ("_check_geometry" in (o.get("msg") or "") or "pygfunction" in (o.get("msg") or "")):
+                continue           # pygfunction rejects the geometry (pipes do not fit): outside the property's "valid borehole"
             chk.violation("radial", c, {"exception": o.get("exc"), "msg": o.get("msg")}, "the short-time model runs for a valid borehole")
             continue
         if len(chk.violations) < 5:
